@@ -455,8 +455,89 @@ pub fn degenerate_programs() -> Vec<(String, Program)> {
 }
 
 /// D-real, D-deep and the degenerate registries: single programs run next to the enumerated drivers.
+/// D-threes: what needs THREE of something - definitions with three parameters in every used / unused pattern
+/// (a used one between two unused ones, two used in one field around an unused one), three prelude `Cow`s around
+/// one type, field lists of the form A-B-A, arrays of odd length and of user types, a tuple of three and four
+/// elements as a generic argument, a struct below two unnamed wrappers, a chain of three user types.
+pub fn threes_program() -> Program {
+    let m = ["p", "t3"];
+    let mut defs = vec![];
+    // 0: Leaf, 1: Kind, 2: W<T>
+    defs.push(Def::strukt(&m, "Leaf", &[], named(vec![("v", U32)])));
+    defs.push(Def::enm(&m, "Kind", &[], vec![variant("A", Fields::Unit), variant("B", Fields::Unnamed(vec![Field::new(U16)])), variant("C", Fields::Named(vec![("c".into(), Field::new(Ty::Prim(Prim::Bool)))]))]));
+    defs.push(Def::strukt(&m, "W", &["T"], named(vec![("g", Ty::Param(0))])));
+    // 3..=10: P0 .. P7 <A, B, C>: bit i of the number = parameter i is used by a field; the others are kept in a marker
+    let first_p = defs.len();
+    for mask in 0..8usize {
+        let names = ["a", "b", "c"];
+        let mut fields: Vec<(&str, Ty)> = vec![];
+        let mut unused = vec![];
+        for i in 0..3 {
+            if mask & (1 << i) != 0 {
+                fields.push((names[i], Ty::Param(i)));
+            } else {
+                unused.push(Ty::Param(i));
+            }
+        }
+        if !unused.is_empty() {
+            fields.push(("marker", Ty::Phantom(b(if unused.len() == 1 { unused[0].clone() } else { Ty::Tuple(unused) }))));
+        }
+        defs.push(Def::strukt(&m, &format!("P{mask}"), &["A", "B", "C"], if fields.is_empty() { Fields::Unit } else { named(fields) }));
+    }
+    // 11: Around<A, B, C> { ac: (A, C), marker: PhantomData<B> }, 12: the same as an enum
+    let around = defs.len();
+    defs.push(Def::strukt(&m, "Around", &["A", "B", "C"], named(vec![("ac", Ty::Tuple(vec![Ty::Param(0), Ty::Param(2)])), ("marker", Ty::Phantom(b(Ty::Param(1))))])));
+    defs.push(Def::enm(&m, "AroundE", &["A", "B", "C"], vec![variant("X", Fields::Unnamed(vec![Field::new(Ty::Param(1))])), variant("Y", Fields::Named(vec![("m".into(), Field::new(Ty::Phantom(b(Ty::Tuple(vec![Ty::Param(0), Ty::Param(2)])))))]))]));
+    // 13: Moves (A-B-A field lists), 14: Move, 15: SetRange
+    let moves = defs.len();
+    defs.push(Def::enm(&m, "Moves", &[], vec![
+        variant("Move", Fields::Named(vec![("from".into(), Field::new(U16)), ("memo".into(), Field::new(Ty::CowStr)), ("to".into(), Field::new(U16))])),
+        variant("SetRange", Fields::Unnamed(vec![Field::new(U32), Field::new(Ty::Prim(Prim::Bool)), Field::new(U32)])),
+        variant("Five", Fields::Unnamed(vec![Field::new(U8), Field::new(Ty::Named(0, vec![])), Field::new(U8), Field::new(Ty::Named(0, vec![])), Field::new(U8)])),
+    ]));
+    defs.push(Def::strukt(&m, "Move", &[], named(vec![("from", U16), ("memo", Ty::Vec(b(U8))), ("to", U16)])));
+    defs.push(Def::strukt(&m, "SetRange", &[], Fields::Unnamed(vec![Field::new(U32), Field::new(Ty::Prim(Prim::Bool)), Field::new(U32)])));
+    // 16: Mid { leaf: Leaf }, 17: Outer { mid: Mid, w: W<Mid> }
+    let mid = defs.len();
+    defs.push(Def::strukt(&m, "Mid", &[], named(vec![("leaf", Ty::Named(0, vec![]))])));
+    defs.push(Def::strukt(&m, "Outer", &[], named(vec![("mid", Ty::Named(mid, vec![])), ("w", Ty::Named(2, vec![Ty::Named(mid, vec![])]))])));
+    let outer = defs.len() - 1;
+    // Host
+    let mut fields: Vec<(String, Ty)> = vec![];
+    for mask in 0..8usize {
+        fields.push((format!("p{mask}"), Ty::Named(first_p + mask, vec![U8, U16, U32])));
+        fields.push((format!("q{mask}"), Ty::Named(first_p + mask, vec![U32, Ty::Named(0, vec![]), U8])));
+    }
+    fields.push(("around".into(), Ty::Named(around, vec![U8, U16, U32])));
+    fields.push(("around2".into(), Ty::Named(around, vec![U32, U8, U16])));
+    fields.push(("around_e".into(), Ty::Named(around + 1, vec![U8, U16, U32])));
+    fields.push(("cow3".into(), Ty::Cow(b(Ty::Cow(b(Ty::CowStr))))));
+    fields.push(("cow3v".into(), Ty::Vec(b(Ty::Cow(b(Ty::Cow(b(Ty::CowBytes))))))));
+    fields.push(("cow3n".into(), Ty::Cow(b(Ty::Cow(b(Ty::Cow(b(Ty::Named(0, vec![]))))))))); 
+    fields.push(("moves".into(), Ty::Named(moves, vec![])));
+    fields.push(("mv".into(), Ty::Named(moves + 1, vec![])));
+    fields.push(("sr".into(), Ty::Named(moves + 2, vec![])));
+    fields.push(("a3".into(), Ty::Array(b(U8), 3)));
+    fields.push(("a5".into(), Ty::Array(b(U16), 5)));
+    fields.push(("a7".into(), Ty::Array(b(Ty::Prim(Prim::Bool)), 7)));
+    fields.push(("al3".into(), Ty::Array(b(Ty::Named(0, vec![])), 3)));
+    fields.push(("ao2".into(), Ty::Array(b(Ty::Option(b(U8))), 2)));
+    fields.push(("aa".into(), Ty::Array(b(Ty::Array(b(Ty::Named(0, vec![])), 1)), 2)));
+    fields.push(("ak4".into(), Ty::Array(b(Ty::Tuple(vec![U32, Ty::Named(1, vec![])])), 4)));
+    fields.push(("w3".into(), Ty::Named(2, vec![Ty::Tuple(vec![U8, U16, U32])])));
+    fields.push(("w4".into(), Ty::Option(b(Ty::Vec(b(Ty::Tuple(vec![Ty::Prim(Prim::Bool), U8, U16, U32])))))));
+    fields.push(("ww".into(), Ty::Named(2, vec![Ty::Named(2, vec![Ty::Named(2, vec![Ty::Named(1, vec![])])])])));
+    fields.push(("vt".into(), Ty::Vec(b(Ty::Tuple(vec![Ty::Named(0, vec![]), U8])))));
+    fields.push(("vv".into(), Ty::Vec(b(Ty::Vec(b(Ty::Named(mid, vec![])))))));
+    fields.push(("ovb".into(), Ty::Vec(b(Ty::Option(b(Ty::Box(b(Ty::Named(1, vec![])))))))));
+    fields.push(("outer".into(), Ty::Named(outer, vec![])));
+    defs.push(Def::strukt(&["p", "h"], "Host", &[], Fields::Named(fields.into_iter().map(|(n, t)| (n, Field::new(t))).collect())));
+    let host = defs.len() - 1;
+    Program { defs, roots: vec![Ty::Named(host, vec![])] }
+}
+
 pub fn special_programs() -> Vec<(String, Program)> {
-    let mut v = vec![("D-real".to_string(), real_shapes_program()), ("D-deep".to_string(), deep_program())];
+    let mut v = vec![("D-real".to_string(), real_shapes_program()), ("D-deep".to_string(), deep_program()), ("D-threes".to_string(), threes_program())];
     v.extend(degenerate_programs().into_iter().map(|(n, p)| (format!("degenerate: {n}"), p)));
     // recursive structs whose only Box sits inside an array / a tuple / an Option of the written field type
     let rec = |name: &str, fields: Vec<(&str, Ty)>| (format!("D-rec-struct {name}"), Program { defs: vec![Def::strukt(&["p", "t"], name, &[], named(fields))], roots: vec![Ty::Named(0, vec![])] });
